@@ -25,7 +25,7 @@ up to 60 s.
 
 Exit 1 with a line starting with 'VIOLATION C16:' when the behaviour shows.
 """
-import os, sys; ROOT = os.environ.get("JOBLIB_ROOT", "/tmp/wt_s1"); sys.path.insert(0, ROOT); os.environ["PYTHONPATH"] = ROOT + os.pathsep + os.environ.get("PYTHONPATH", "")
+import os, sys; ROOT = os.environ.get("JOBLIB_ROOT", "/repo"); sys.path.insert(0, ROOT); os.environ["PYTHONPATH"] = ROOT + os.pathsep + os.environ.get("PYTHONPATH", "")
 
 import time
 
